@@ -19,6 +19,9 @@
 pub mod typegen;
 /// Utilities for handling Type Registries
 pub mod utils;
+/// Verification hooks (event sink), only with `--cfg scale_typegen_verif`.
+#[cfg(scale_typegen_verif)]
+pub mod verif_hooks;
 
 pub use typegen::{
     error::TypegenError,
